@@ -88,7 +88,9 @@ def plan_C01(tier, seed):
         for n in range(1, 6):
             alpha = A5 if n <= nmax_full else A3
             if n <= 2:
-                alpha = alpha | {BIG}          # a 10^6 spike entering and leaving the window (cancellation in the incremental updates)
+                # spikes of 10^6 and 10^8 entering and leaving the window: after them the incremental updates cancel at the scale of
+                # the spike, and what is left must still be the statistic of the small values (within tau * the spike)
+                alpha = alpha | {BIG, 100 * BIG}
             m = MULTS[(n - 1) % len(MULTS)]
             # reset is part of every history (t counts inputs since construction or reset): from every reachable state, reset
             # followed by fresh values (a state after reset merges with the initial state in the VIEW, so the continuation
